@@ -316,6 +316,39 @@ func optionHelperShape(g *gen.Generator, name string) (bool, string) {
 	if fd == nil {
 		return false, "not found"
 	}
+	// defined through the counting helper: any = count(...) > 0, all = count(...) == len(options)
+	if name != "countMethodOptions" && len(fd.Body.List) == 1 && len(fd.Type.Params.List) >= 2 {
+		if ret, ok := fd.Body.List[0].(*ast.ReturnStmt); ok && len(ret.Results) == 1 {
+			if be, ok := ast.Unparen(ret.Results[0]).(*ast.BinaryExpr); ok {
+				opts := fd.Type.Params.List[len(fd.Type.Params.List)-1].Names[0].Name
+				first := fd.Type.Params.List[0].Names[0].Name
+				isCount := func(e ast.Expr) bool {
+					ce, ok := ast.Unparen(e).(*ast.CallExpr)
+					return ok && types.ExprString(ce.Fun) == "countMethodOptions" && len(ce.Args) == 2 && ce.Ellipsis.IsValid() &&
+						types.ExprString(ce.Args[0]) == first && types.ExprString(ce.Args[1]) == opts
+				}
+				x, y, op := be.X, be.Y, be.Op
+				if !isCount(x) && isCount(y) {
+					x, y = y, x
+					op = map[token.Token]token.Token{token.LSS: token.GTR, token.GTR: token.LSS, token.LEQ: token.GEQ, token.GEQ: token.LEQ, token.EQL: token.EQL, token.NEQ: token.NEQ}[op]
+				}
+				if isCount(x) {
+					ys := types.ExprString(y)
+					switch name {
+					case "hasMethodOption":
+						if (op == token.GTR && ys == "0") || (op == token.GEQ && ys == "1") || (op == token.NEQ && ys == "0") {
+							return optionHelperShape(g, "countMethodOptions")
+						}
+					case "hasAllMethodOption":
+						if (op == token.EQL || op == token.GEQ) && ys == "len("+opts+")" {
+							return optionHelperShape(g, "countMethodOptions")
+						}
+					}
+					return false, "defined through countMethodOptions, but not as 'at least one' / 'all of them'"
+				}
+			}
+		}
+	}
 	var rng *ast.RangeStmt
 	var final *ast.ReturnStmt
 	for _, st := range fd.Body.List {
